@@ -65,10 +65,10 @@ def run(facts, cg):
             d = dict(zip(rv['fields'], rv['ops']))
             th = simplify(T.of_operand(b, d['hash_sum']))
             tc = simplify(T.of_operand(b, d['chunk']))
-            if not (has_call(th, 'HashSum::b2_digest') and has_call(th, 'Chunk::data')):
+            if not ((_is_digest(th) and has_call(th, 'Chunk::data')) or _body_digests(b, T, 'Chunk::data')):
                 finding('R-WHO(verified-ctor)', fn, 'not-hashed', 'VerifiedChunk::new no longer stores the Blake2 digest of the chunk data (%s)' % show(th))
         if fn == 'bitar::chunk::ArchiveChunk::verify':
-            sites = hash_compare_sites(b, T, lambda a: has_call(a, 'HashSum::b2_digest') or a[0] == 'var', lambda a: has_field(a, 'expected_hash') or has_field(a, 1))
+            sites = hash_compare_sites(b, T, lambda a: _is_digest(a) or a[0] == 'var' or (_body_digests(b, T, '::data') and a[0] in ('agg', 'phi')), lambda a: has_field(a, 'expected_hash') or has_field(a, 1))
             ok = False
             for cbi, ct, unequal, equal in sites:
                 if unequal is None:
@@ -195,6 +195,23 @@ def run(facts, cg):
                     if ty.get('adt') != 'alloc::collections::btree::map::BTreeMap':
                         finding('R-WHO(nondeterminism)', adt, 'metadata-not-btree', 'ChunkDictionary.metadata is %s, not a BTreeMap: encoding order would be unspecified' % ty['s'])
     return instances, findings
+
+
+def _is_digest(t):
+    """a Blake2 digest: the crate's own helper while it is a call, else (inlined / renamed) the hasher's finalize / one-shot digest"""
+    return has_call(t, 'HashSum::b2_digest') or has_call(t, '::finalize') or has_call(t, 'Digest>::digest') or has_call(t, '::digest')
+
+
+def _body_digests(b, T, data_call):
+    """the (flattened) body feeds a Blake2 hasher with data obtained through `data_call` (the digest helper was inlined and its
+    result is assembled through a mutable buffer, which provenance terms do not follow)"""
+    for bi, t in b.calls():
+        if 'q' in t['callee'] and callee_q(t).split('::')[-1] in ('update', 'digest', 'chain_update', 'update_with_size') and \
+                ('Digest' in t['callee']['q'] or 'Update' in t['callee']['q'] or 'blake2' in callee_q(t)):
+            for a in t['args']:
+                if has_call(simplify(T.of_operand(b, a)), data_call):
+                    return True
+    return False
 
 
 def _reach(b, start):
